@@ -10,6 +10,7 @@ pub mod c06;
 pub mod c07;
 pub mod c08;
 pub mod c09;
+pub mod c10;
 pub mod c11;
 pub mod c12;
 pub mod c13;
@@ -32,6 +33,7 @@ pub fn registry() -> Vec<(&'static str, fn(&Report), Option<fn(&Value) -> String
         ("C07", c07::run, Some(c07::replay)),
         ("C08", c08::run, Some(c08::replay)),
         ("C09", c09::run, Some(c09::replay)),
+        ("C10", c10::run, Some(c10::replay)),
         ("C11", c11::run, Some(c11::replay)),
         ("C12", c12::run, Some(c12::replay)),
         ("C13", c13::run, Some(c13::replay_case)),
